@@ -264,8 +264,27 @@ class Atomizer:
             return T._mk(op, tuple(a), t.val, t.sort)
         raise NotImplementedError(op)
 
+    def _congruence(self):
+        """functional consistency for atoms over opaque (non-variable) bases: equal arguments, equal values"""
+        for tab, Ls in ((self.trig_vars, self.trigL), (self.hyp_vars, self.hypL)):
+            ids = [i for i in tab if i in self.base_terms]
+            for x in range(len(ids)):
+                for y in range(x + 1, len(ids)):
+                    i, j = ids[x], ids[y]
+                    bi, bj = self.base_terms[i], self.base_terms[j]
+                    if bi.op == "var" and bj.op == "var":
+                        continue
+                    if bi.op == "const" and bj.op == "const":
+                        continue
+                    Li, Lj = Ls.get(i, 1), Ls.get(j, 1)
+                    ri, rj = T.scale(Lj, self.rw(bi)), T.scale(Li, self.rw(bj))
+                    self.axioms.append(T.implies(T.eq(ri, rj), T.and_(T.eq(tab[i][0], tab[j][0]), T.eq(tab[i][1], tab[j][1]))))
+                    self.axioms.append(T.implies(T.eq(ri, T.neg(rj)),
+                                                 T.and_(T.eq(tab[i][0], tab[j][0]), T.eq(tab[i][1], T.neg(tab[j][1])))))
+
     def _links(self):
         """relate a base variable that also occurs as a plain real to its atoms; bound pi"""
+        self._congruence()
         for _ in range(3):   # axioms may themselves introduce plain occurrences
             n_before = len(self.axioms)
             fv = {v.id for v in T.free_vars(self.out + self.axioms)}
